@@ -11,7 +11,7 @@ def run(ctx):
     pump(ctx)
     # the consumers next to every other service and timer of the node (product model CoFull)
     import full_check
-    full_check.run(ctx, 400 if ctx.tier == "quick" else 20000)
+    full_check.run(ctx, 400 if ctx.tier == "quick" else 6000)
 
 def pump(ctx):
     """255 saturation: scenarios evaluated by TLC on the reference (CoNodeGen!EmitPump): first heartbeat, k in
